@@ -643,7 +643,14 @@ func (u *Unmarshaler) processFieldNotFromString(fieldType reflect.Type, value re
 
 		return u.fillSliceFromString(fieldType, value, mapValue, fullName)
 	case valueKind == reflect.String && derefedFieldType == durationType:
-		return fillDurationValue(fieldType, value, mapValue.(string))
+		// json.Number is of kind string as well, only a real string is a duration text
+		dur, ok := mapValue.(string)
+		if !ok {
+			return newTypeMismatchErrorWithHint(fullName, reflect.String.String(),
+				reflect.TypeOf(mapValue).String())
+		}
+
+		return fillDurationValue(fieldType, value, dur)
 	case valueKind == reflect.String && typeKind == reflect.Struct && u.implementsUnmarshaler(fieldType):
 		return u.fillUnmarshalerStruct(fieldType, value, mapValue.(string))
 	default:
